@@ -5,7 +5,12 @@ using namespace Pistache::Async;
 struct AllData2 : Impl::All::Data { AllData2(size_t n, Resolver r, Rejection j) : Impl::All::Data(n, std::move(r), std::move(j)) {} std::tuple<int, int> results; };
 struct AllData3 : Impl::All::Data { AllData3(size_t n, Resolver r, Rejection j) : Impl::All::Data(n, std::move(r), std::move(j)) {} std::tuple<int, int, int> results; };
 struct AnyData : Impl::Any::Data { AnyData(size_t n, Resolver r, Rejection j) : Impl::Any::Data(n, std::move(r), std::move(j)) {} };
+#include <new>
 extern "C" {
+// the policy data is built by its REAL constructor (the harness does not depend on which bookkeeping members it has)
+void c11_all2_init(void* mem, Resolver* r, Rejection* j) { new (mem) AllData2(2, std::move(*r), std::move(*j)); }
+void c11_all3_init(void* mem, Resolver* r, Rejection* j) { new (mem) AllData3(3, std::move(*r), std::move(*j)); }
+void c11_any_init(void* mem, size_t n, Resolver* r, Rejection* j) { new (mem) AnyData(n, std::move(*r), std::move(*j)); }
 void c11_all2_resolve0(const int& v, std::shared_ptr<AllData2>& d) { Impl::All::resolveT<0>(v, d); }
 void c11_all2_resolve1(const int& v, std::shared_ptr<AllData2>& d) { Impl::All::resolveT<1>(v, d); }
 void c11_all2_reject(std::exception_ptr e, std::shared_ptr<AllData2>& d) { Impl::All::reject(std::move(e), d); }
